@@ -70,16 +70,16 @@ func c06Worker(rec *kit.Rec, w uint64, n int) {
 }
 
 type c06Res struct {
-	status     string // agree | disagree | zoekt-rejects | unjudged | grammar | both-reject | zoekt-panics | ref-panic | doc-panic
-	detail     string
-	ci         int
-	r          *kit.Repo
-	d          *kit.Doc
-	zSel, mSel bool
-	nontrivial bool
+	status        string // agree | disagree | zoekt-rejects | unjudged | grammar | both-reject | zoekt-panics | ref-panic | doc-panic
+	detail        string
+	ci            int
+	r             *kit.Repo
+	d             *kit.Doc
+	zSel, mSel    bool
+	nontrivial    bool
 	ambiguousDocs int
-	g          *dGroup
-	zq         query.Q
+	g             *dGroup
+	zq            query.Q
 }
 
 // c06Compare interprets s both ways on the corpora listed in cis.
